@@ -35,7 +35,12 @@ type Profile struct {
 	IdxP                          float64 // plain secondary indexes
 	NotNullP, DefaultP, CheckP    float64
 	GenP                          float64
-	Auto                          bool
+	// GenWide (C19): generated columns over several base columns, a second generated column, VIRTUAL ones
+	// (VirtualP), CHECKs that read generated columns (GenCheckP), ON DUPLICATE KEY UPDATE / UPDATE aimed at the
+	// base columns those generated columns read, up to three assignments per UPDATE, INSERT .. SELECT ("inssel")
+	GenWide             bool
+	VirtualP, GenCheckP float64
+	Auto                bool
 	// statements: weights
 	W map[string]int
 	// values
@@ -84,8 +89,8 @@ func ProfileFor(name string) Profile {
 			ReuseP: 0.5, NullP: 0.2, OmitP: 0.2, KeyUpdP: 0.4, Probes: true, MinLen: 20, MaxLen: 40}
 	case "c19":
 		return Profile{Name: name, Tables: 1, PKNone: 2, PKSingle: 6, PKComposite: 2, StrKeyP: 0.2, CIP: 0.4, UniqP: 0.3, UniqMultiP: 0.2,
-			NotNullP: 0.45, DefaultP: 0.5, CheckP: 0.8, GenP: 0.7,
-			W:      wts(map[string]int{"ignore": 18, "updignore": 8, "odku": 6, "replace": 6}),
+			NotNullP: 0.45, DefaultP: 0.5, CheckP: 0.8, GenP: 0.9, GenWide: true, VirtualP: 0.2, GenCheckP: 0.6,
+			W:      wts(map[string]int{"insert": 26, "ignore": 14, "updignore": 8, "odku": 22, "replace": 8, "inssel": 8, "delete": 10}),
 			ReuseP: 0.4, NullP: 0.25, NullNotNull: 0.12, OmitP: 0.5, KeyUpdP: 0.15, MinLen: 10, MaxLen: 40}
 	case "c20":
 		return Profile{Name: name, Tables: 1, PKSingle: 1, UniqP: 1, NotNullP: 0.1, DefaultP: 0.2, Auto: true,
@@ -177,8 +182,13 @@ func (g *Gen) table(name string) *Table {
 	}
 	t := &Table{}
 	n := 3 + g.pick(3)
+	intP := 0.55
+	if p.GenWide {
+		// room for base columns that generated columns read and statements can assign
+		n, intP = 4+g.pick(2), 0.7
+	}
 	for i := 0; i < n; i++ {
-		if g.chance(0.55) {
+		if g.chance(intP) {
 			t.Cols = append(t.Cols, IntCol())
 		} else if g.chance(p.CIP) {
 			t.Cols = append(t.Cols, StrCol("ci"))
@@ -289,6 +299,23 @@ func (g *Gen) table(name string) *Table {
 			c.HasDef, c.Def, c.NotNull = false, sqlast.Null(), false
 			if e := g.genExpr(t, gi); e != nil {
 				c.HasGen, c.Gen = true, e
+				c.Virtual = p.GenWide && g.chance(p.VirtualP)
+			}
+			if p.GenWide && len(cands) > 1 && g.chance(0.4) {
+				// a second generated column (it reads base columns only, never the first one)
+				g2 := cands[g.pick(len(cands))]
+				c2 := &t.Cols[g2-1]
+				if g2 != gi && !(c.HasGen && RefersTo(c.Gen, map[int]bool{g2: true})) && len(g.baseCols(t, c2.Ty, g2)) > 0 {
+					saved := *c2
+					c2.HasDef, c2.Def, c2.NotNull = false, sqlast.Null(), false
+					c2.HasGen = true // so that genExpr does not read it
+					if e := g.genExpr(t, g2); e != nil {
+						c2.Gen = e
+						c2.Virtual = g.chance(p.VirtualP)
+					} else {
+						*c2 = saved
+					}
+				}
 			}
 		}
 	}
@@ -298,6 +325,27 @@ func (g *Gen) table(name string) *Table {
 			t.Checks = append(t.Checks, e)
 		}
 		nc++
+	}
+	if p.GenWide && g.chance(0.75) {
+		// mostly at least one CHECK reads a generated column
+		genCols := map[int]bool{}
+		for i, c := range t.Cols {
+			if c.HasGen {
+				genCols[i+1] = true
+			}
+		}
+		reads := false
+		for _, ck := range t.Checks {
+			reads = reads || RefersTo(ck, genCols)
+		}
+		if len(genCols) > 0 && !reads {
+			if e := g.genCheckExpr(t); e != nil {
+				if len(t.Checks) >= 2 {
+					t.Checks = t.Checks[:1]
+				}
+				t.Checks = append(t.Checks, e)
+			}
+		}
 	}
 	return t.Fix()
 }
@@ -363,11 +411,41 @@ func (g *Gen) baseCols(t *Table, ty string, except int) []int {
 func (g *Gen) genExpr(t *Table, gi int) *Expr {
 	c := t.Cols[gi-1]
 	src := g.baseCols(t, c.Ty, gi)
+	if g.P.GenWide {
+		// read assignable columns (UPDATE / ON DUPLICATE KEY UPDATE never assign primary-key columns here)
+		var free []int
+		for _, x := range src {
+			if !g.roleOf(t, x).inPK {
+				free = append(free, x)
+			}
+		}
+		if len(free) > 0 {
+			src = free
+		}
+	}
 	if len(src) == 0 {
 		return nil
 	}
 	a := src[g.pick(len(src))]
 	ra := ColRef(a, t.Cols[a-1])
+	if c.Ty == "i" && g.P.GenWide && len(src) > 1 && g.chance(0.6) {
+		// over two different base columns; minus makes the value move both ways
+		b := src[g.pick(len(src))]
+		for b == a {
+			b = src[g.pick(len(src))]
+		}
+		rb := ColRef(b, t.Cols[b-1])
+		switch g.pick(4) {
+		case 0:
+			return sqlast.Op("minus", ra, rb)
+		case 1:
+			return sqlast.Op("plus", ra, rb)
+		case 2:
+			return sqlast.Op("minus", sqlast.Fn("coalesce", ra, Lit(sqlast.Int(0))), sqlast.Fn("coalesce", rb, Lit(sqlast.Int(0))))
+		default:
+			return sqlast.Op("plus", sqlast.Op("times", ra, Lit(sqlast.Int(2))), sqlast.Fn("coalesce", rb, Lit(sqlast.Int(1))))
+		}
+	}
 	if c.Ty == "i" {
 		switch g.pick(3) {
 		case 0:
@@ -401,7 +479,70 @@ func (g *Gen) genExpr(t *Table, gi int) *Expr {
 	}
 }
 
+// genCheckExpr: a CHECK that reads a generated column (thresholds that most rows satisfy and some do not).
+func (g *Gen) genCheckExpr(t *Table) *Expr {
+	var gens []int
+	for i, c := range t.Cols {
+		if c.HasGen {
+			gens = append(gens, i+1)
+		}
+	}
+	if len(gens) == 0 {
+		return nil
+	}
+	a := gens[g.pick(len(gens))]
+	ca := t.Cols[a-1]
+	ra := ColRef(a, ca)
+	if ca.Ty == "i" {
+		// bounds that the rows built from the ordinary value pool (0..7) mostly satisfy and that the far values
+		// of farExpr (ON DUPLICATE KEY UPDATE / UPDATE of a column the generated column reads) mostly break
+		switch g.pick(5) {
+		case 0:
+			return sqlast.Op("ge", ra, Lit(sqlast.Int(-4-g.pick(3))))
+		case 1:
+			return sqlast.Op("le", ra, Lit(sqlast.Int(11+g.pick(5))))
+		case 2:
+			return sqlast.Op("ne", ra, Lit(sqlast.Int(2+g.pick(6))))
+		case 3:
+			return sqlast.Op("between", ra, Lit(sqlast.Int(-4-g.pick(3))), Lit(sqlast.Int(11+g.pick(5))))
+		default:
+			if o := g.baseCols(t, "i", a); len(o) > 0 {
+				b := o[g.pick(len(o))]
+				return sqlast.Op("le", ra, sqlast.Op("plus", ColRef(b, t.Cols[b-1]), Lit(sqlast.Int(9))))
+			}
+			return sqlast.Op("le", ra, Lit(sqlast.Int(13)))
+		}
+	}
+	switch g.pick(3) {
+	case 0:
+		return sqlast.Op("le", sqlast.Fn("char_length", ra), Lit(sqlast.Int(2+g.pick(2))))
+	case 1:
+		return sqlast.Op("ne", ra, Lit(sqlast.Str([]string{"A", "AB", "ax", "a", "B"}[g.pick(5)])))
+	default:
+		return sqlast.Op("ne", sqlast.Fn("left", ra, Lit(sqlast.Int(1))), Lit(sqlast.Str([]string{"b", "B", "x"}[g.pick(3)])))
+	}
+}
+
+// farExpr: a new value for an INT column that lies well outside the ordinary pool (or moves the column far).
+func (g *Gen) farExpr(c int, col Col) *Expr {
+	switch g.pick(4) {
+	case 0:
+		return Lit(sqlast.Int(9 + g.pick(8)))
+	case 1:
+		return Lit(sqlast.Int(-2 - g.pick(8)))
+	case 2:
+		return sqlast.Op("plus", ColRef(c, col), Lit(sqlast.Int(5+g.pick(5))))
+	default:
+		return sqlast.Op("minus", ColRef(c, col), Lit(sqlast.Int(5+g.pick(5))))
+	}
+}
+
 func (g *Gen) checkExpr(t *Table) *Expr {
+	if g.P.GenWide && g.chance(g.P.GenCheckP) {
+		if e := g.genCheckExpr(t); e != nil {
+			return e
+		}
+	}
 	var cands []int
 	for i, c := range t.Cols {
 		if !c.HasGen && !c.Auto {
@@ -548,7 +689,13 @@ func (g *Gen) value(tn string, t *Table, col int, allowNull bool) Value {
 		}
 	}
 	key := fmt.Sprintf("%s.%d", tn, col)
-	if s := g.seen[key]; len(s) > 0 && g.chance(g.P.ReuseP) {
+	reuse := g.P.ReuseP
+	if g.P.PrefixFam > 0 && g.roleOf(t, col).plen >= 2 {
+		// a prefix-key column mostly gets a fresh member of its family: a re-used value collides as a
+		// whole value, the family collides (or must not collide) on the prefix
+		reuse *= 0.3
+	}
+	if s := g.seen[key]; len(s) > 0 && g.chance(reuse) {
 		return s[g.pick(len(s))]
 	}
 	v := g.poolValueRole(c, g.roleOf(t, col))
@@ -584,6 +731,8 @@ func (g *Gen) Statements(n int) {
 			s = g.update(tn, t, false)
 		case "updignore":
 			s = g.update(tn, t, true)
+		case "inssel":
+			s = g.insertSelect(tn, t)
 		case "delete":
 			s = g.delete(tn, t)
 		case "truncate":
@@ -777,6 +926,41 @@ func genSources(t *Table) map[int]bool {
 	return m
 }
 
+// checkedGenSources: base columns read by a generated column that a CHECK reads (changing one of them
+// moves the generated value the CHECK judges); all generated-column sources if no CHECK reads a generated column.
+func checkedGenSources(t *Table) []int {
+	hot := map[int]bool{}
+	for gi, gc := range t.Cols {
+		if !gc.HasGen {
+			continue
+		}
+		read := false
+		for _, ck := range t.Checks {
+			if RefersTo(ck, map[int]bool{gi + 1: true}) {
+				read = true
+			}
+		}
+		if !read {
+			continue
+		}
+		for i := range t.Cols {
+			if RefersTo(gc.Gen, map[int]bool{i + 1: true}) {
+				hot[i+1] = true
+			}
+		}
+	}
+	if len(hot) == 0 {
+		hot = genSources(t)
+	}
+	var out []int
+	for i := range t.Cols {
+		if hot[i+1] {
+			out = append(out, i+1)
+		}
+	}
+	return out
+}
+
 func (g *Gen) insert(tn string, t *Table, mode string) *Stmt {
 	all := g.insertable(t)
 	// steering around the known finding "INSERT IGNORE computes a generated column from the NULL it
@@ -811,6 +995,15 @@ func (g *Gen) insert(tn string, t *Table, mode string) *Stmt {
 	if g.chance(0.4) {
 		nrows = 2 + g.pick(2)
 	}
+	selfCollide := 0.35
+	if g.P.GenWide && mode == "odku" {
+		// a later row mostly repeats the key of an earlier row of the statement: whatever the table holds, the
+		// repeated row finds its key taken and goes down the ON DUPLICATE KEY UPDATE path
+		if nrows == 1 && g.chance(0.45) {
+			nrows = 2
+		}
+		selfCollide = 0.8
+	}
 	hasUniq := len(t.Uniq) > 0 && len(t.PK) > 0 || len(t.Uniq) > 1
 	if (mode == "replace" || mode == "odku") && hasUniq && !g.chance(g.P.BadBail) {
 		// steering around the known finding "a pending delete hides later duplicates of its unique key":
@@ -838,13 +1031,17 @@ func (g *Gen) insert(tn string, t *Table, mode string) *Stmt {
 				}
 			case (col.HasDef || !col.NotNull) && g.chance(0.08):
 				row[i] = DefaultCell()
+			case g.P.GenWide && mode == "odku" && g.roleOf(t, c).inPK && len(g.seen[fmt.Sprintf("%s.%d", tn, c)]) > 0 && g.chance(0.7):
+				// ON DUPLICATE KEY UPDATE should mostly find its row
+				sv := g.seen[fmt.Sprintf("%s.%d", tn, c)]
+				row[i] = ValCell(sv[g.pick(len(sv))])
 			default:
 				row[i] = ValCell(g.value(tn, t, c, !noNull[c]))
 			}
 		}
 		// collide with an earlier row of the same statement on its key columns
 		risky := (mode == "replace" || mode == "odku") && !g.chance(g.P.BadBail)
-		if r > 0 && g.chance(0.35) {
+		if r > 0 && g.chance(selfCollide) {
 			src := rows[g.pick(r)]
 			for i, c := range cols {
 				role := g.roleOf(t, c)
@@ -898,19 +1095,42 @@ func (g *Gen) insert(tn string, t *Table, mode string) *Stmt {
 		} else {
 			n := 1 + g.pick(2)
 			used := map[int]bool{}
+			var hot []int
+			if g.P.GenWide {
+				for _, h := range checkedGenSources(t) {
+					for _, x := range targets {
+						if x == h {
+							hot = append(hot, h)
+						}
+					}
+				}
+			}
 			for k := 0; k < n; k++ {
 				c := targets[g.pick(len(targets))]
+				if len(hot) > 0 && g.chance(0.7) {
+					c = hot[g.pick(len(hot))]
+				}
 				if used[c] {
 					continue
 				}
 				used[c] = true
 				col := t.Cols[c-1]
 				var e *Expr
+				isHot := false
+				for _, h := range hot {
+					isHot = isHot || h == c
+				}
+				if isHot && col.Ty == "i" && g.chance(0.5) {
+					odku = append(odku, SetItem{Col: c, E: g.farExpr(c, col)})
+					continue
+				}
 				switch g.pick(3) {
 				case 0:
 					e = ValuesRef(c, w, col)
 				case 1:
-					if col.Ty == "i" {
+					if col.Ty == "i" && g.P.GenWide {
+						e = sqlast.Op([]string{"plus", "minus"}[g.pick(2)], ColRef(c, col), Lit(sqlast.Int(1+g.pick(3))))
+					} else if col.Ty == "i" {
 						e = sqlast.Op("plus", ColRef(c, col), Lit(sqlast.Int(1)))
 					} else {
 						e = ValuesRef(c, w, col)
@@ -923,6 +1143,66 @@ func (g *Gen) insert(tn string, t *Table, mode string) *Stmt {
 		}
 	}
 	return Insert(tn, mode, cols, rows, odku)
+}
+
+// insertSelect: INSERT / INSERT IGNORE / REPLACE INTO t (cols) SELECT .. FROM t WHERE .. ORDER BY <primary key>
+// [LIMIT n]: the table feeds itself (the source is read before anything is written).  Every target column gets
+// an expression of its own type over the source row: the column itself, another column of that type, the column
+// moved by a constant (primary-key columns mostly, so that the new rows do not all collide) or a literal.
+// Guarantee for the specification: ORDER BY names the full primary key, so there is no INSERT .. SELECT on keyless tables.
+func (g *Gen) insertSelect(tn string, t *Table) *Stmt {
+	if len(t.PK) == 0 {
+		return g.insert(tn, t, "plain")
+	}
+	var cols []int
+	for _, c := range g.insertable(t) {
+		col := t.Cols[c-1]
+		if (col.HasDef || !col.NotNull) && g.chance(g.P.OmitP*0.6) {
+			continue
+		}
+		cols = append(cols, c)
+	}
+	if len(cols) == 0 {
+		cols = g.insertable(t)
+	}
+	var exprs []*Expr
+	for _, c := range cols {
+		col := t.Cols[c-1]
+		role := g.roleOf(t, c)
+		ref := ColRef(c, col)
+		var e *Expr
+		switch x := g.pick(10); {
+		case col.Ty == "i" && (x < 4 || (role.inPK && x < 8)):
+			e = sqlast.Op("plus", ref, Lit(sqlast.Int(1+g.pick(8))))
+		case col.Ty == "s" && role.inPK && x < 7:
+			e = sqlast.Fn("concat", ref, Lit(sqlast.Str([]string{"1", "x", "b"}[g.pick(3)])))
+		case x < 6:
+			e = ref
+		case x < 8:
+			// another column of the same type (generated columns included: their values are readable)
+			var o []int
+			for i, oc := range t.Cols {
+				if i+1 != c && oc.Ty == col.Ty && !oc.Auto {
+					o = append(o, i+1)
+				}
+			}
+			if len(o) > 0 {
+				b := o[g.pick(len(o))]
+				e = ColRef(b, t.Cols[b-1])
+			} else {
+				e = ref
+			}
+		default:
+			e = Lit(g.value(tn, t, c, true))
+		}
+		exprs = append(exprs, e)
+	}
+	limit := -1
+	if g.chance(0.5) {
+		limit = 1 + g.pick(3)
+	}
+	mode := []string{"plain", "plain", "ignore", "replace"}[g.pick(4)]
+	return InsertSelect(tn, mode, cols, &Select{From: tn, Exprs: exprs, Where: g.where(tn, t, 1), Order: g.pkOrder(t), Limit: limit})
 }
 
 func (g *Gen) where(tn string, t *Table, depth int) *Expr {
@@ -1005,12 +1285,27 @@ func (g *Gen) update(tn string, t *Table, ignore bool) *Stmt {
 	if g.chance(0.3) {
 		n = 2
 	}
+	var hot []int
+	if g.P.GenWide {
+		if g.chance(0.35) {
+			n = 2 + g.pick(2) // UPDATE with several assignments (applied left to right)
+		}
+		for _, h := range checkedGenSources(t) {
+			for _, x := range otherCols {
+				if x == h {
+					hot = append(hot, h)
+				}
+			}
+		}
+	}
 	used := map[int]bool{}
 	touchesKey := false
 	var set []SetItem
 	for k := 0; k < n; k++ {
 		var c int
-		if len(keyCols) > 0 && (len(otherCols) == 0 || g.chance(g.P.KeyUpdP)) {
+		if len(hot) > 0 && g.chance(0.5) {
+			c = hot[g.pick(len(hot))]
+		} else if len(keyCols) > 0 && (len(otherCols) == 0 || g.chance(g.P.KeyUpdP)) {
 			if ignore && len(t.PK) == 0 {
 				if len(otherCols) == 0 {
 					continue
@@ -1032,6 +1327,11 @@ func (g *Gen) update(tn string, t *Table, ignore bool) *Stmt {
 			touchesKey = true
 		}
 		e := g.setExpr(tn, t, c)
+		for _, h := range hot {
+			if h == c && t.Cols[c-1].Ty == "i" && g.chance(0.35) {
+				e = g.farExpr(c, t.Cols[c-1])
+			}
+		}
 		if ignore && t.Cols[c-1].NotNull && genSources(t)[c] && !g.chance(0.06) {
 			// steering around the known finding "IGNORE computes generated columns from the NULL it replaces"
 			e = Lit(g.value(tn, t, c, false))
